@@ -42,6 +42,18 @@ Fixpoint ge_bound (T B : R) (V C N : list R) : Prop :=
   | _, _, _ => False
   end.
 
+(* the real-valued optimum of one level before the ceil (the cost as the code uses it: 1e30 where it is 0), and the
+   bound below which np.ceil(...).astype(int) is a faithful integer; above it (or for nan / inf) the repaired code
+   (fix-mc4 f58964a) raises ValueError: error value -1 in the generated core *)
+Definition int_bound : R := (IZR 2 / IZR 1) ^ 63.
+Definition cost_used (c : R) : R := if Reqb c 0 then IZR 1000000000000000000000000000000 / IZR 1 else c.
+Definition giles_optimal (rmse v c T : R) : R := sqrt (v / cost_used c) * T / ((1 - 1 / 4) * rmse ^ 2).
+Fixpoint in_range (rmse T : R) (V C : list R) : Prop :=
+  match V, C with
+  | v :: V', c :: C' => giles_optimal rmse v c T < int_bound /\ in_range rmse T V' C'
+  | _, _ => True
+  end.
+
 (* the bias estimate of criteria_giles: extrapolation from the last (up to) three level means (ml as a list; an empty
    ml raises IndexError in numpy -- the engine always passes at least one level) *)
 Definition giles_rem (alpha : R) (ml : list R) : R :=
